@@ -4,10 +4,13 @@ Implementation-side metamorphic checks (YAML, CSV and the command line are not i
 same specification as mapping / list of groups / YAML stream / YAML file / `python -m
 ladim_plugins.release` gives identical tables; seeded repeated runs are identical, also when the very same mapping object is passed again; the written file
 (tab separated, no header) parses back (Python `float`, what LADiM uses) to exactly the returned
-table; missing-key configurations are rejected with an error naming exactly what is missing.
+table; missing-key configurations are rejected with an error naming exactly what is missing.  The table of a seeded
+specification does not depend on the releases made earlier in the process (families of near-identical specifications:
+long outlines and tables revised in the middle, changes behind the eighth decimal, a GeoJSON path with new content),
+judged against the command line in a process of its own.
 Correspondence: `load_config` validation against the Lean `Table.validate` for every missing-key
 combination; container normalisation through the table model (shared with C01)."""
-import importlib, io, os, sys, tempfile, shutil, subprocess, itertools, re, copy, datetime
+import importlib, importlib.util, io, os, sys, tempfile, shutil, subprocess, itertools, re, copy, datetime, math, json
 import numpy as np
 from .common import Driver, I, RngRecorder
 from . import relgen, c01
@@ -29,7 +32,17 @@ RULE = ("YAML-serialisable configurations: 1..4 groups, num in {0,1,2,3,7,40}, a
         "plus a matrix of small 1..2-group configurations whose random content is of exactly one kind (polygon, "
         "multipolygon, offset, GeoJSON file, range / gaussian / exponential / piecewise attribute, implicit and under "
         "`attrs`, depth range) x all three seedless containers x object / stream / file, caller seeds special and random "
-        "below 2^32. Non-trivial: every configuration.")
+        "below 2^32. History of the process (6 quick / 42 thorough families, kinds in shuffled rotation): 2..3 seeded "
+        "single-group specifications that are revisions of each other, released one after the other in this process, then "
+        "two of them as the groups of one configuration (later member first), then all again in reverse order; kinds: "
+        "polygon, multipolygon (the other parts unchanged), metric offset, GeoJSON file (Polygon / MultiPolygon features "
+        "with properties; own path per member, or one path whose content is rewritten), piecewise attribute with a long "
+        "knots table, vector-valued attribute with num = its length; sizes: large (star-shaped outline of 501..899 "
+        "vertices / table of 1001..1399 numbers, a stretch revised that mostly lies away from both ends), mid (30..399), "
+        "fine (4..39 vertices / numbers, a random subset moved by 1e-12 .. 4e-9 degrees, 1e-7 .. 4e-4 m for offsets); "
+        "with probability 0.4 a revision also has another seed and num; supplied as grouped / flat mapping, grouped / "
+        "flat YAML stream or YAML file; each release against `python -m ladim_plugins.release` in a process of its own "
+        "and against a pristine import of the module. Non-trivial: every configuration.")
 ASSUMPTIONS = ["yaml.safe_load / pandas.to_csv / the CLI are exercised, not modelled",
                "the one-argument command line prints pandas' default rendering of the table: it is compared for tables of "
                "four columns and at most 50 rows (no truncation, no wrapping), numbers at the display precision of 6 digits"]
@@ -255,6 +268,310 @@ def random_kind_group(rng, kind, g, tmp, tag):
     elif kind == "attr.piece":
         conf["q"] = dict(distribution="piecewise", knots=[0.0, 5.0, 20.0], cdf=[0.0, 0.3, 1.0])
     return conf
+
+
+# ---- the history of the process: a seeded specification gives the same table in a process that has already made other
+# releases (a script looping over areas, several groups in one configuration, a long-running service) as in a process of
+# its own (`python -m ladim_plugins.release`).  The earlier releases are *near* the later ones: revised versions of one
+# detailed outline, outlines that differ only far behind the decimal point, the same GeoJSON path with new content.
+HISTORY_KINDS = ["loc.poly", "loc.multi", "loc.offset", "loc.geojson", "loc.geojson_same_path", "attr.piece_long", "attr.vector_long"]
+HISTORY_SIZES = ["large", "fine", "large", "mid"]
+
+
+def star_outline(rng, n, r):
+    """a simple polygon around the origin as (angles, radii): star-shaped (strictly increasing angles with gaps below
+    pi, positive radii), so every choice of positive radii is again a simple polygon"""
+    th = [2 * math.pi * (i + rng.uniform(-0.4, 0.4)) / n for i in range(n)]
+    rad = [r * rng.uniform(0.3, 1.0) for _ in range(n)]
+    return th, rad
+
+
+def outline_xy(th, rad, cx, cy, rev):
+    xs = [cx + a * math.cos(t) for a, t in zip(rad, th)]
+    ys = [cy + a * math.sin(t) for a, t in zip(rad, th)]
+    return (xs[::-1], ys[::-1]) if rev else (xs, ys)
+
+
+def pick_arc(rng, n):
+    """positions [i, j) of a sequence of length n: mostly a stretch away from both ends (a revision somewhere along a
+    long outline / table), otherwise any stretch"""
+    if n > 8 and rng.random() < 0.7:
+        i = rng.randrange(3, n - 4)
+        j = rng.randrange(i + 1, n - 2)
+    else:
+        i = rng.randrange(0, n)
+        j = rng.randrange(i + 1, n + 1)
+    return i, j
+
+
+def nudge(rng, xs, scale):
+    """the same numbers, a random non-empty subset of them moved by 1e-4 .. 0.4 times `scale` (scale 1e-8: changes
+    behind the eighth decimal)"""
+    out = list(xs)
+    idx = [k for k in range(len(out)) if rng.random() < 0.5] or [rng.randrange(len(out))]
+    for k in idx:
+        out[k] = out[k] + rng.choice([-1, 1]) * rng.uniform(1e-4, 0.4) * scale
+    assert out != list(xs)
+    return out
+
+
+def ring_of(xs, ys):
+    return [[x, y] for x, y in zip(xs, ys)] + [[xs[0], ys[0]]]
+
+
+def history_family(rng, kind, size, tmp, tag):
+    """2..3 single-group specifications of one kind that are revisions of each other.  Returns a list of members
+    dict(group=<group for this process>, cli_group=<the same group for a process of its own>, files={path: text})."""
+    # large: more than 1000 numbers in one outline (500 vertices) / in one table
+    n = rng.randrange(501, 900) if size == "large" else rng.randrange(30, 400) if size == "mid" else rng.randrange(4, 40)
+    if size == "large" and kind.startswith("attr."):
+        n = rng.randrange(1001, 1400)
+    nmem = rng.randrange(2, 4)
+    num = rng.choice([1, 3, 7, 40, 300])
+    date = rng.choice(["2000-01-01 12:00:00", ["2015-04-01T00:00:00", "2015-04-02T06:00:00"]])
+    common = dict(num=num, date=date, group_id=1)
+    if rng.random() < 0.3:
+        common["depth"] = [0, 10]
+    members = []
+    if kind.startswith("loc."):
+        metric = kind == "loc.offset"
+        cx, cy = (0.0, 0.0) if metric else (round(rng.uniform(-20, 30), 3), round(rng.uniform(50, 75), 3))
+        r = rng.uniform(50.0, 2000.0) if metric else rng.uniform(0.05, 0.5)
+        centre = [round(rng.uniform(-20, 30), 3), round(rng.uniform(50, 75), 3)]
+        th, rad = star_outline(rng, n, r)
+        rev = rng.random() < 0.5
+        outlines = [outline_xy(th, rad, cx, cy, rev)]
+        for v in range(1, nmem):
+            if size == "fine":
+                # 1e-8 degrees; 1e-3 m is 1e-8 degrees of latitude
+                sc = 1e-3 if metric else 1e-8
+                xs, ys = outlines[0]
+                both = nudge(rng, xs + ys, sc)
+                outlines.append((both[:len(xs)], both[len(xs):]))
+            else:
+                i, j = pick_arc(rng, n)
+                rad2 = list(rad)
+                f = rng.uniform(0.2, 0.9)
+                for k in range(i, j):
+                    rad2[k] = rad[k] * (f if rng.random() < 0.7 else rng.uniform(0.2, 0.9))
+                outlines.append(outline_xy(th, rad2, cx, cy, rev))
+        # the other parts of a multipolygon / feature collection stay as they are
+        others = []
+        if kind in ("loc.multi", "loc.geojson", "loc.geojson_same_path"):
+            for q in range(rng.randrange(1, 3) if kind == "loc.multi" else rng.randrange(0, 3)):
+                th_o, rad_o = star_outline(rng, rng.randrange(3, 12), 0.3)
+                others.append(outline_xy(th_o, rad_o, cx + 2.0 * (q + 1), cy, False))
+        at = rng.randrange(len(others) + 1)
+        for v, (xs, ys) in enumerate(outlines):
+            g = dict(common)
+            files = {}
+            gc = None
+            if kind == "loc.poly":
+                g["location"] = [xs, ys]
+            elif kind == "loc.multi":
+                ps = others[:at] + [(xs, ys)] + others[at:]
+                g["location"] = [[p[0] for p in ps], [p[1] for p in ps]]
+            elif kind == "loc.offset":
+                g["location"] = dict(center=centre, offset=[xs, ys])
+            else:
+                ps = others[:at] + [(xs, ys)] + others[at:]
+                feats = []
+                for fi, p in enumerate(ps):
+                    geometry = (dict(type="Polygon", coordinates=[ring_of(*p)]) if (fi + n) % 2 else
+                                dict(type="MultiPolygon", coordinates=[[ring_of(*p)]]))
+                    feats.append(dict(type="Feature", properties=dict(region=fi + 1, name="area %d" % fi), geometry=geometry))
+                text = json.dumps(dict(type="FeatureCollection", features=feats))
+                own = os.path.join(tmp, "hist_%s_%d.geojson" % (tag, v))
+                path = os.path.join(tmp, "hist_%s.geojson" % tag) if kind == "loc.geojson_same_path" else own
+                g["location"] = path
+                files = {path: text, own: text}
+                gc = dict(g, location=own)
+            members.append(dict(group=g, cli_group=gc or g, files=files))
+        return members
+    # attributes whose specification is a long table of numbers
+    if kind == "attr.piece_long":
+        n = max(n, 3)
+        knots = [0.0]
+        for k in range(n - 1):
+            knots.append(knots[-1] + rng.uniform(1.0, 2.0))
+        cdf = [k / (n - 1) for k in range(n)]
+        tables = [knots]
+    else:
+        common["num"] = n
+        tables = [[round(rng.uniform(0.0, 100.0), 3) for _ in range(n)]]
+    for v in range(1, nmem):
+        if size == "fine":
+            tables.append(nudge(rng, tables[0], 1e-8))
+        else:
+            i, j = pick_arc(rng, n)
+            t2 = list(tables[0])
+            for k in range(i, j):
+                t2[k] = t2[k] + rng.uniform(0.1, 0.9)       # (knots stay increasing: the steps are at least 1)
+            tables.append(t2)
+    loc = [round(rng.uniform(-20, 30), 4), round(rng.uniform(50, 75), 4)]
+    if rng.random() < 0.5:
+        th_o, rad_o = star_outline(rng, rng.randrange(3, 12), 0.3)
+        loc = list(outline_xy(th_o, rad_o, loc[0], loc[1], False))
+    for t in tables:
+        g = dict(common, location=loc)
+        if kind == "attr.piece_long":
+            g["q"] = dict(distribution="piecewise", knots=t, cdf=cdf)
+        else:
+            g["age"] = t
+        members.append(dict(group=g, cli_group=g, files={}))
+    return members
+
+
+def fresh_import(mk):
+    """the module as a process of its own would find it: a second, pristine import of its source (module-level state
+    of the first import is not shared)"""
+    name = mk.__name__.rsplit(".", 1)[0] + "._verif_pristine_makrel"
+    spec = importlib.util.spec_from_file_location(name, mk.__file__)
+    mod = importlib.util.module_from_spec(spec)
+    sys.modules[name] = mod
+    try:
+        spec.loader.exec_module(mod)
+    finally:
+        sys.modules.pop(name, None)
+    return mod
+
+
+def history_checks(ctx, mk, yaml, tmp):
+    """Families of near-identical specifications released one after the other in this process; every release is
+    compared with the file a process of its own writes for the same specification (command line), with a pristine
+    import of the module, and with itself when released again at the end."""
+    site = SITE + "::make_release"
+    hcli = Cli(limit=6)
+    kinds = list(HISTORY_KINDS)
+    ctx.rng.shuffle(kinds)
+    later = []
+    try:
+        for f in range(ctx.n(6, 42)):
+            kind = kinds[f % len(kinds)]
+            size = HISTORY_SIZES[f % len(HISTORY_SIZES)] if f < 2 * len(kinds) else ctx.rng.choice(["large", "mid", "fine"])
+            tag = "%d" % f
+            members = history_family(ctx.rng, kind, size, tmp, tag)
+            seed0 = ctx.rng.choice(SPECIAL_SEEDS) if ctx.rng.random() < 0.3 else ctx.rng.randrange(2**32)
+            specs = []        # (label, mapping for this process, mapping for a process of its own, files)
+            for v, m in enumerate(members):
+                seed = seed0
+                g, gc = dict(m["group"]), dict(m["cli_group"])
+                if v > 0 and ctx.rng.random() < 0.4:
+                    # the revision is released with another seed / number of particles as well
+                    seed = ctx.rng.randrange(2**32)
+                    if kind != "attr.vector_long":
+                        g["num"] = gc["num"] = ctx.rng.choice([1, 3, 7, 40, 300])
+                specs.append(("member%d" % v, dict(seed=seed, groups=[g]), dict(seed=seed, groups=[gc]), m["files"]))
+            # ... and two of them as the groups of one configuration, the later one first
+            # (not for the re-used GeoJSON path: it cannot hold two contents at a time)
+            if kind != "loc.geojson_same_path":
+                a, b = members[-1], members[0]
+                both_files = dict(a["files"]); both_files.update(b["files"])
+                specs.append(("two_groups", dict(seed=seed0, groups=[dict(a["group"], group_id=1), dict(b["group"], group_id=2)]),
+                              dict(seed=seed0, groups=[dict(a["cli_group"], group_id=1), dict(b["cli_group"], group_id=2)]), both_files))
+            history = []
+            done = []
+            for label, conf, conf_cli, files in specs:
+                for path, text in files.items():
+                    with open(path, "w", encoding="utf-8") as fh:
+                        fh.write(text)
+                single = len(conf["groups"]) == 1
+                via = ctx.rng.choice(["grouped", "flat", "yaml_stream", "yaml_file", "flat_yaml_stream"] if single
+                                     else ["grouped", "yaml_stream", "yaml_file"])
+                flat = dict(copy.deepcopy(conf["groups"][0]), seed=copy.deepcopy(conf["seed"])) if single else None
+                if via == "grouped":
+                    supplied = copy.deepcopy(conf)
+                elif via == "flat":
+                    supplied = flat
+                elif via == "flat_yaml_stream":
+                    supplied = io.StringIO(yaml.safe_dump(flat, sort_keys=False))
+                elif via == "yaml_stream":
+                    supplied = io.StringIO(yaml.safe_dump(conf, sort_keys=False))
+                else:
+                    supplied = os.path.join(tmp, "hist_conf.yaml")
+                    with open(supplied, "w", encoding="utf8") as fh:
+                        fh.write(yaml.safe_dump(conf, sort_keys=False))
+                cs = dict(config=conf, supplied_as=via, kind=kind, size=size, member=label,
+                          released_before_in_this_process=list(history))
+                if any(isinstance(g_["location"], str) for g_ in conf["groups"]):
+                    cs["geojson_files"] = {g_["location"]: files[g_["location"]] for g_ in conf["groups"] if isinstance(g_["location"], str)}
+                ctx.case(key=("history", f, label, repr(conf)), nontrivial=True)
+                ctx.branch("history"); ctx.branch("history.kind." + kind); ctx.branch("history.size." + size)
+                ctx.branch("history.via." + via); ctx.branch("history." + ("two_groups" if not single else "one_group"))
+                p_out = os.path.join(tmp, "hist_out.rls")
+                if os.path.exists(p_out):
+                    os.remove(p_out)
+                tab = mk.make_release(supplied, p_out)
+                with open(p_out, encoding="utf8") as fh:
+                    text_here = fh.read()
+                # the file is the table (the round trip of the main loop, here for the long outlines too)
+                hdr = list(tab.keys())
+                lines = [l.split("\t") for l in text_here.split("\n") if l != ""]
+                ok = len(lines) == nrows_of(tab) and all(len(l) == len(hdr) for l in lines)
+                if ok:
+                    for j, k in enumerate(hdr):
+                        for r_, l in enumerate(lines):
+                            v_ = tab[k][r_]
+                            if isinstance(v_, str):
+                                ok = ok and l[j] == v_
+                            else:
+                                try:
+                                    ok = ok and float(l[j]) == float(v_)
+                                except ValueError:
+                                    ok = False
+                ctx.oracle(ok, "C18.file.round_trip", site, "the file written for a %s release (%s) does not parse back to the returned table" % (kind, label), cs)
+                # a process of its own: the command line on the YAML file of the same specification
+                p_in = os.path.join(tmp, "hist_cli_%s_%s.yaml" % (tag, label)); p_cli = os.path.join(tmp, "hist_cli_%s_%s.rls" % (tag, label))
+                with open(p_in, "w", encoding="utf8") as fh:
+                    fh.write(yaml.safe_dump(conf_cli, sort_keys=False))
+
+                def then(rc, out, err, p_cli=p_cli, text_here=text_here, cs=cs, label=label, nhist=len(history)):
+                    got = None
+                    if os.path.exists(p_cli):
+                        with open(p_cli, encoding="utf8") as fh:
+                            got = fh.read()
+                    detail = ""
+                    if got is not None and got != text_here:
+                        la, lb = text_here.split("\n"), got.split("\n")
+                        d = [i for i in range(min(len(la), len(lb))) if la[i] != lb[i]]
+                        detail = "; %d / %d lines, first differing line %d: here %r, command line %r" % (
+                            len(la), len(lb), d[0] if d else -1, la[d[0]] if d else "", lb[d[0]] if d else "")
+                    ctx.oracle(rc == 0 and got == text_here, "C18.history.cli_differs", MAIN,
+                               "the seeded specification (%s), released in this process after %d near-identical releases, writes another "
+                               "file than `python -m ladim_plugins.release` writes for it in a process of its own (rc=%d %s)%s"
+                               % (label, nhist, rc, err[-200:], detail), cs)
+                hcli.launch([sys.executable, "-m", "ladim_plugins.release", p_in, p_cli], then)
+                ctx.branch("history.cli")
+                done.append((label, conf, files, tab, cs))
+                history.append(conf)
+            # released again, the last one first (every specification now has all the others behind it)
+            for label, conf, files, tab, cs in reversed(done):
+                for path, text in files.items():
+                    with open(path, "w", encoding="utf-8") as fh:
+                        fh.write(text)
+                again = mk.make_release(copy.deepcopy(conf))
+                ok, msg = tables_equal(tab, again)
+                ctx.oracle(ok, "C18.history.not_reproducible", site,
+                           "the seeded specification (%s) released again after the other members of its family gives another table: %s" % (label, msg), cs)
+                later.append((label, conf, files, tab, cs))
+        hcli.drain()
+        # a pristine import of the module (no release made with it yet) gives the table this process gave
+        for label, conf, files, tab, cs in later:
+            for path, text in files.items():
+                with open(path, "w", encoding="utf-8") as fh:
+                    fh.write(text)
+            pristine = fresh_import(mk).make_release(copy.deepcopy(conf))
+            ok, msg = tables_equal(pristine, tab)
+            ctx.oracle(ok, "C18.history.pristine_import_differs", site,
+                       "the seeded specification (%s) gives another table in this process (near-identical releases made before) than "
+                       "with a pristine import of the module: %s" % (label, msg), cs)
+            ctx.branch("history.pristine_import")
+    finally:
+        for p, _ in hcli.pending:
+            try:
+                p.kill()
+            except Exception:
+                pass
 
 
 class Cli:
@@ -631,6 +948,8 @@ def run(ctx):
                 ref = mk.make_release(copy.deepcopy(conf))
                 # (whether the table does depend on the caller's seed is counted: branch seedless.random_content)
                 seedless_checks(ctx, mk, yaml, tmp, groups, cols, seed, ref, cs, bool(rep % 2))
+        # ---- the history of the process: near-identical specifications one after the other, each against a process of its own
+        history_checks(ctx, mk, yaml, tmp)
         # ---- error path
         drv = Driver()
         if getattr(ctx, "widened", False):
